@@ -233,4 +233,74 @@ def generate(repo):
         rows.append('(%d, %s)' % (t.value, o))
     out.append('Definition convert_other_table : list (Z * option string) := [%s].' % '; '.join(rows))
     out.append('')
+    out.append('(* which unguarded uses the handlers still contain: each was probed with a canonical witness request against a')
+    out.append('   scratch KmipEngine; true = the witness still answers GENERAL_FAILURE at the recorded site *)')
+    out.append('Definition defect_present : list (string * bool) := [%s].' % ';\n  '.join(
+        '("%s", %s)' % (n, 'true' if b else 'false') for n, b in _probe_defects()))
+    out.append('')
     return {'PieClasses.v': '\n'.join(out) + '\n'}
+
+
+def _probe_defects():
+    """Runs one canonical witness per unguarded use the C13 model knows (NoCrash/Model.v `defect`) on a scratch engine.
+    Fail closed: a witness that answers GENERAL_FAILURE anywhere else than at its recorded site raises."""
+    import shutil
+    import tempfile
+    from pathlib import Path
+    import c13                      # harness/c13.py: request builders, engine driver with the WARNING capture
+    E = c13.enums
+    tmp = Path(tempfile.mkdtemp(prefix='c13probe'))
+
+    class Ctx:
+        work = tmp
+    hp = {'hashing_algorithm': E.HashingAlgorithm.SHA_256}
+    ENG = 'services/server/engine.py:'
+    probes = [
+        ('modify-unsupported-multivalued', (1, 2), 'SYMMETRIC_KEY', {'op': 'ModifyAttribute1', 'attr': {'name': 'Cryptographic Parameters', 'index': None}},
+         ENG + '_process_modify_attribute:TypeError'),
+        ('mac-stateless-object', (1, 2), 'OPAQUE_DATA', {'op': 'MAC', 'params': {'cryptographic_algorithm': E.CryptographicAlgorithm.HMAC_SHA256}, 'data': b'd'},
+         ENG + '_process_mac:AttributeError(state)'),
+        ('get-attribute-missing-field', (1, 2), 'CERTIFICATE', {'op': 'Locate', 'attrs': [{'name': 'Cryptographic Algorithm'}]},
+         ENG + '_get_attribute_from_managed_object:AttributeError(cryptographic_algorithm)'),
+        ('set-attribute-missing-field', (1, 2), None, {'op': 'Register', 'otype': 'CERTIFICATE', 'secret': {'type': 'CERTIFICATE'}, 'ta': c13.tmpl('Cryptographic Algorithm')},
+         ENG + '_set_attribute_on_managed_object:AttributeError(cryptographic_algorithm)'),
+        ('get-wrap-no-parameters', (1, 2), 'SYMMETRIC_KEY', {'op': 'Get', 'wrap': {'eki': {'uid': 'WK', 'params': None}, 'encoding': 'NO_ENCODING'}},
+         ENG + '_process_get:AttributeError(block_cipher_mode)'),
+        ('get-wrap-non-key', (1, 2), 'CERTIFICATE', {'op': 'Get', 'wrap': {'eki': {'uid': 'WK', 'params': {'block_cipher_mode': E.BlockCipherMode.NIST_KEY_WRAP}}, 'encoding': 'NO_ENCODING'}},
+         ENG + '_process_get:AttributeError(key_block)'),
+        ('derive-no-parameters', (1, 2), 'SYMMETRIC_KEY', {'op': 'DeriveKey', 'otype': 'SYMMETRIC_KEY', 'uids': ['T'], 'method': 'HASH', 'dp': {'params': None}, 'ta': c13.DERIVE_TA},
+         ENG + '_process_derive_key:AttributeError(hashing_algorithm)'),
+        ('delete-current-name', (2, 0), 'SYMMETRIC_KEY', {'op': 'DeleteAttribute2', 'current': {'name': 'Name'}, 'ref': None},
+         ENG + '_delete_attribute_from_managed_object:AttributeError(value)'),
+        ('register-convert', (1, 2), None, {'op': 'Register', 'otype': 'CERTIFICATE', 'secret': {'type': 'CERTIFICATE', 'cert_type': 'PGP'}, 'ta': c13.tmpl()},
+         'pie/factory.py:_build_pie_certificate:TypeError'),
+        ('get-attributes-empty-response', (2, 0), 'SYMMETRIC_KEY', {'op': 'GetAttributes', 'names': ['Certificate Type']},
+         'core/messages/payloads/get_attributes.py:write:InvalidField'),
+    ]
+    out = []
+    drv = c13.Driver(Ctx)
+    try:
+        for name, ver, ttype, req, site in probes:
+            drv.reset()
+            wk = c13.add_object(drv, c13.obj_spec('SYMMETRIC_KEY', 'Active', 'all'), 90)
+            req = dict(req)
+            if ttype is not None:
+                t = c13.add_object(drv, c13.obj_spec(ttype, 'Active', 'all', names=1), 1)
+                if 'uids' in req:
+                    req['uids'] = [t]
+                elif req['op'] != 'Locate':
+                    req['uid'] = t
+            if 'wrap' in req:
+                req['wrap'] = {'eki': {'uid': wk, 'params': req['wrap']['eki']['params']}, 'encoding': 'NO_ENCODING'}
+            obs = drv.run(c13.mk_item(req), ver)
+            seen = c13.observed_site(obs)
+            if seen is None:
+                out.append((name, False))
+            elif seen == site:
+                out.append((name, True))
+            else:
+                raise ValueError('defect probe %s: GENERAL_FAILURE at %s, expected %s (the C13 model must be extended)' % (name, seen, site))
+    finally:
+        drv.close()
+        shutil.rmtree(str(tmp), ignore_errors=True)
+    return out
